@@ -90,7 +90,12 @@ class HierDictDocument(DictDocument):
 
             class_name = self.get_class_name(body_class)
             if self.ignore_wrappers:
-                doc = doc.get(class_name, None)
+                _doc = doc.get(class_name, None)
+                if _doc is None and isinstance(class_name, bytes):
+                    # the method name was already matched leniently; a
+                    # document with text keys is as good as one with bytes keys
+                    _doc = doc.get(class_name.decode('utf8'), None)
+                doc = _doc
 
             result_message = self._doc_to_object(ctx, body_class, doc,
                                                                  self.validator)
